@@ -56,6 +56,9 @@ def plan(tier, seed):
     W.append({"kind": "harmonic", "name": "harmonic-D+D-N2-T1000", "prop": "D+D", "op": {"t": "Box", "step": 0.35}, "add": True, "n": 2, "T": 1000.0, "L": L["h"]})
     W.append({"kind": "harmonic", "name": "harmonic-HMC-N2-T300", "prop": "HMC", "n": 2, "T": 300.0, "L": L["h"] // 4})
     W.append({"kind": "harmonic", "name": "harmonic-HMC-N5-T1000", "prop": "HMC", "n": 5, "T": 1000.0, "L": L["h"] // 4})
+    # coarse time step: a third or more of the proposals are rejected, so whatever a rejected proposal leaves behind
+    # (momenta, cached forces, reference energies) weighs on the averages
+    W.append({"kind": "harmonic", "name": "harmonic-HMCcoarse-N2-T300", "prop": "HMC", "hdt": 1.45, "hsteps": 3, "n": 2, "T": 300.0, "L": L["h"] // 2})
     if big:
         for i, (pn, op) in enumerate(props):
             n, T = grid[(i + 2) % 4]
@@ -91,7 +94,7 @@ def chain_harmonic(w, seed, L):
     if w["prop"] == "HMC":
         spec["driver"] = "HamiltonianCanonical"
         omega = math.sqrt(k / mass)
-        spec["table"] = [{"name": "h", "move": {"t": "H", "dt": 0.55 / omega / fs, "steps": 6}}]
+        spec["table"] = [{"name": "h", "move": {"t": "H", "dt": w.get("hdt", 0.5) / omega / fs, "steps": w.get("hsteps", 3)}}]
     else:
         d = {"t": "D", "op": w["op"]}
         if w.get("mul"):
@@ -108,9 +111,11 @@ def chain_harmonic(w, seed, L):
     atoms.calc = Harmonic(sites, k)
     mc.context.last_positions = atoms.get_positions()
     out = np.empty(L)
+    acc = np.empty(L)
     for i, _ in enumerate(mc.srun(L)):
         out[i] = atoms.get_potential_energy()
-    return {"E/kT": out / kT}, {}
+        acc[i] = float(bool(mc.move_history and mc.move_history[-1][1]))
+    return {"E/kT": out / kT}, {"accepted": acc}
 
 
 def chain_dipole(w, seed, L):
@@ -310,6 +315,8 @@ def run(spec):
             table[f"P(N={b})"] = {"expected": p, "measured": m, "se": se, "z": z}
             if abs(z) > 5.5:
                 flagged.append((f"bin:{b}", z))
+    if "accepted" in extras:
+        table["acceptance"] = {"rate": float(np.mean(extras["accepted"])), "steps": int(len(extras["accepted"]))}
     iid = iid_tests(extras)
     for name, (p, n) in iid.items():
         rec.count("insertion_uniformity_tests" if "position" in name else "orientation_tests")
